@@ -198,7 +198,7 @@ def judge(prop, r, script, outcomes, h, label=''):
             break
         o = outcomes[i]
         sent, endkind = h.sent[i]
-        ref = rfc7230.decode(sent, endkind == 'fin', resp.method)
+        ref = rfc7230.decode(sent, endkind == 'fin', resp.method, interim=resp.desc.get('interim', 0))
         shape = '%s/%s/%s%s' % (resp.method, resp.status, resp.framing, '+len' if resp.desc.get('nobody_with_length') else '')
         coded = resp.coding != 'identity'
         if o.get('error') == 'HANG':
@@ -365,6 +365,8 @@ def run(tape, prop, tier):
             for i, (a, b) in enumerate(zip(base, res)):
                 if i > 0 and script[i - 1].surplus:
                     break       # what follows a surplus depends on whether the connection was (legitimately) dropped
+                if script[i].desc.get('interim'):
+                    break       # known finding C08-K2: from here on the connection is out of step; not comparable
                 if a != b:
                     # only a finding if the reference says the message is complete (otherwise timing of EOF/RST may legally differ)
                     sent, endkind = h.sent[i] if i < len(h.sent) else (b'', None)
